@@ -55,7 +55,10 @@ func c12(c *Ctx) {
 				succ = 1
 			}
 			q := &pathQ{fn: f, fromEdges: []cfgEdge{{b, succ}},
-				to: func(in ssa.Instruction) bool { _, isNext := in.(*ssa.Next); return isNext || callTo(sqlTxT+"doUpsert")(in) },
+				to: func(in ssa.Instruction) bool {
+					_, isNext := in.(*ssa.Next)
+					return isNext || callTo(sqlTxT+"doUpsert")(in)
+				},
 				via: func(in ssa.Instruction) bool {
 					x, ok := in.(*ssa.If)
 					if !ok {
@@ -188,7 +191,10 @@ func c12(c *Ctx) {
 			if !ok {
 				return false
 			}
-			return dependsOn(mu.Value, func(v ssa.Value) bool { d, _ := fieldOf(v); return d == "colUpdate.val" || strings.HasSuffix(desc(v), ".updates") })
+			return dependsOn(mu.Value, func(v ssa.Value) bool {
+				d, _ := fieldOf(v)
+				return d == "colUpdate.val" || strings.HasSuffix(desc(v), ".updates")
+			})
 		}) {
 			n++
 			q := &pathQ{fn: f, fromEntry: true, to: func(in ssa.Instruction) bool { return in == u },
